@@ -1,4 +1,4 @@
-use anyhow::Result;
+use anyhow::{Result, ensure};
 use bitvec_helpers::bitstream_io_reader::BsIoSliceReader;
 
 use super::UserDataTypeStruct;
@@ -50,10 +50,19 @@ impl ST2094_10CmData {
             ..Default::default()
         };
 
+        ensure!(
+            meta.el_bit_depth_minus8 <= 8,
+            "el_bit_depth_minus8 should be <= 8"
+        );
+
         let coefficient_log2_denom_length = meta.coefficient_log2_denom as u32;
 
         for cmp in 0..NUM_COMPONENTS {
             meta.num_pivots_minus2[cmp] = reader.get_ue()?;
+            ensure!(
+                meta.num_pivots_minus2[cmp] <= 7,
+                "num_pivots_minus2 should be <= 7"
+            );
 
             meta.pred_pivot_value[cmp]
                 .resize_with((meta.num_pivots_minus2[cmp] as usize) + 2, Default::default);
@@ -91,6 +100,10 @@ impl ST2094_10CmData {
                 // MAPPING_POLYNOMIAL
                 if meta.mapping_idc[cmp][pivot_idx] == 0 {
                     meta.poly_order_minus1[cmp][pivot_idx] = reader.get_ue()?;
+                    ensure!(
+                        meta.poly_order_minus1[cmp][pivot_idx] <= 1,
+                        "poly_order_minus1 should be <= 1"
+                    );
 
                     meta.poly_coef_int[cmp][pivot_idx].resize_with(
                         (meta.poly_order_minus1[cmp][pivot_idx] as usize) + 2,
